@@ -2,7 +2,7 @@ import BSModel.Driver.Util
 import BSModel.Model.Depth
 /-! line protocol of C11 (call-depth accounting)
 
-    c11 depth <new|old> <rootkx> <midname> <k> (<op>:<recv>:<linked>)*k <event>*
+    c11 depth <new|old> <rootkx> <midname> <pre codes> <container codes> <k> (<op>:<recv>:<linked>)*k <event>*
         the accounting of each <op> on the tree the events describe; reply: k numbers
 
     event  := o<name>.<attrs>.<kx>.<void> | c | ci (closed implicitly: no end tag in the markup) | t<text id>
@@ -75,14 +75,14 @@ def preNames : Names := { isPre := fun n => n == 6 || n == 9, isSc := fun n => n
 def q0 : Query := ⟨none, false, false, none, false⟩
 
 /-- the harness' operation names -/
-def opDepth (cfg : Cfg) (op : String) (linked : Bool) (root : Loc) (l : Loc) (midName : Nat) (evs : List Ev) : Option Nat :=
+def opDepth (cfg : Cfg) (preNames : Names) (op : String) (linked : Bool) (root : Loc) (l : Loc) (midName : Nat) (evs : List Ev) : Option Nat :=
   let parent : Loc := ⟨l.anc.drop 1, [], .tag 0 0 (l.anc.headD true) false l.sibs⟩
   let fresh : Loc := ⟨[], [], .tag 8 0 (kxOf root.node) false []⟩
   let s : Loc := ⟨[], [], .str 0⟩
   let allNodes := (descs root.anc root.node).map (·.node)
   let big := 1000000000
   match op with
-  | "parse" | "parse_bytes" | "parse_strainer" | "parse_invariant" => some (parseDepth preNames big evs)
+  | "parse" | "parse_bytes" | "parse_strainer" | "parse_invariant" | "parse_state_clean" => some (parseDepth preNames big evs)
   | "decode" | "decode_html" | "decode_fn" | "decode_mid" | "decode_inner" => some (decodeDepth cfg l)
   | "encode" | "encode_inner" => some (encodeDepth cfg l)
   | "prettify" | "prettify_enc" => some (prettifyDepth cfg l)
@@ -96,8 +96,8 @@ def opDepth (cfg : Cfg) (op : String) (linked : Bool) (root : Loc) (l : Loc) (mi
   | "deepcopy" => some (call (deepcopyDepth cfg false l))
   | "doc_copy" => some (copyDepth cfg true l)
   | "doc_deepcopy" => some (call (deepcopyDepth cfg true l))
-  | "doc_pickle" | "doc_pickle_insert0" => some (pickleDepth cfg preNames big linked l)
-  | "doc_pickle_copy" => some (max (copyDepth cfg true l) (pickleDepth cfg preNames big linked l))
+  | "doc_pickle" | "doc_pickle_insert0" | "doc_pickle_py" | "doc_pickle_py_insert0" => some (pickleDepth cfg preNames big linked (feedState preNames big evs) l)
+  | "doc_pickle_copy" | "doc_pickle_py_copy" => some (max (copyDepth cfg true l) (pickleDepth cfg preNames big linked (feedState preNames big evs) l))
   | "get_text" | "get_text_sep_strip" | "text" | "doc_get_text" => some (getTextDepth l)
   | "strings" | "stripped_strings" => some (call (allStringsDepth l))
   | "string_getter" | "string_getter_mid" => some (stringDepth cfg l.node)
@@ -164,20 +164,20 @@ def opDepth (cfg : Cfg) (op : String) (linked : Bool) (root : Loc) (l : Loc) (mi
   | _ => none
 
 /-- `<op>:<recv>:<linked>` -/
-def oneOp (cfg : Cfg) (root : Loc) (tags : List Loc) (midName : Nat) (evs : List Ev) (spec : String) : String :=
+def oneOp (cfg : Cfg) (nm : Names) (root : Loc) (tags : List Loc) (midName : Nat) (evs : List Ev) (spec : String) : String :=
   match spec.splitOn ":" with
   | [op, recv, linked] =>
     let loc : Option Loc := if recv == "r" then some root else tags[recv.toNat!]?
     match loc with
     | none => "bad-recv"
     | some l =>
-      match opDepth cfg op (linked == "1") root l midName evs with
+      match opDepth cfg nm op (linked == "1") root l midName evs with
       | some d => toString d
       | none => "bad-op"
   | _ => "bad-spec"
 
 def handle : List String → String
-  | "depth" :: variant :: rootkx :: midname :: nops :: rest =>
+  | "depth" :: variant :: rootkx :: midname :: prel :: scl :: nops :: rest =>
     let cfg := if variant == "old" then unrepaired else repaired
     let k := nops.toNat!
     let specs := rest.take k
@@ -186,7 +186,8 @@ def handle : List String → String
     | some rootNode =>
       let root : Loc := ⟨[], [rootNode], rootNode⟩
       let tags := (descs [] rootNode).filter (fun d => isTag d.node)
-      " ".intercalate (specs.map (oneOp cfg root tags midname.toNat! (toksToEvs (rest.drop k) [])))
+      let nm : Names := { isPre := (natList "," prel).contains, isSc := (natList "," scl).contains }
+      " ".intercalate (specs.map (oneOp cfg nm root tags midname.toNat! (toksToEvs (rest.drop k) [])))
   | _ => "bad-op"
 
 end BS.Drv.C11
